@@ -36,7 +36,10 @@
                                    eight images (EvaluateWinner: proved to be one), games under the default configuration with at most 64
                                    pieces: Analyze reports nmx d p with a first move attaining it, exactly as without the option
                                    (C05_dedup_value_preserving_winner / _sym); hash hypothesis dedup_nocollision.  Ingredient:
-                                   C05_dedup_nmx_image (exhaustive negamax is invariant under the images).  Every other theorem of this
+                                   C05_dedup_nmx_image (exhaustive negamax is invariant under the images).  FINDING: the built-in evaluator
+                                   MakeEvaluator(size, nil) is NOT symmetric (C05_dedup_default_eval_not_symmetric; the real evaluator gives
+                                   the same numbers: notes/finding_default_eval_asymmetric.txt) - CountThreats depends on the order in which
+                                   the groups are enumerated - so "a symmetric evaluator" excludes it.  Every other theorem of this
                                    file is about Search.analyze_* = the model with the option OFF and claims nothing about dedup = true.
      tt_valid_preserved / win_sound_complete (the table clause)   PROVED for the engine model Search.v with MakePrecise options, a table
         of any size and content, sort on/off, both evaluators of the check, every call cancelled anywhere or never, on a fresh engine or
@@ -630,3 +633,21 @@ Theorem C05_dedup_example_runs : r_value (snd run_on) = r_value (snd run_off) /\
   s_visited (r_acc_d (snd run_on)) < s_visited (r_acc_d (snd run_off)) /\ r_value (snd run_on) = nmx gen_basis evaluate_winner 2 start3.
 Proof. exact runs_dd. Qed.
 Print Assumptions C05_dedup_example_runs.
+
+
+(* FINDING: the hypothesis eval_symmetric of C05_dedup_value_preserving_sym is FALSE for the built-in evaluator ai.MakeEvaluator(size, nil).
+   px = 5x5 after a1 a3 b3 c1 c4 e1 d4 a5 e4 c5 c2 e5 d2 b4 e2 (Black to move, live, a position of a real game: G px): the evaluation is
+   -1790 for px and six of its images and -1390 for images 4 and 6 (CountThreats counts the completion square c3 shared by two junctions once
+   or twice depending on the order in which FloodGroups lists the groups).  The real evaluator returns the same eight numbers
+   (notes/finding_default_eval_asymmetric.txt). *)
+Require SearchDedupEx2.
+Theorem C05_dedup_default_eval_not_symmetric :
+  ~ (forall p k, (k < 8)%nat -> G p -> default_eval (Import5.imgk p k) = default_eval p).
+Proof. exact SearchDedupEx2.default_eval_not_symmetric. Qed.
+Print Assumptions C05_dedup_default_eval_not_symmetric.
+
+Theorem C05_dedup_default_eval_asymmetric_values :
+  map (fun k => default_eval (Import5.imgk SearchDedupEx2.px k)) (seq 0 8) = [-1790; -1790; -1790; -1790; -1390; -1790; -1390; -1790] /\
+  default_eval SearchDedupEx2.px = -1790 /\ is_over SearchDedupEx2.px = false /\ move SearchDedupEx2.px = 15.
+Proof. exact SearchDedupEx2.px_values. Qed.
+Print Assumptions C05_dedup_default_eval_asymmetric_values.
